@@ -170,6 +170,8 @@ def parse_file(path):
                 j += 1
             f = parse_func(ln, lines[i + 1:j])
             if f is not None:
+                if f.name in funcs and funcs[f.name].raw != f.raw:
+                    AMBIGUOUS.add(f.name)       # two different bodies printed under one name (macro-local items): never executed
                 funcs[f.name] = f
             i = j + 1
             continue
@@ -221,6 +223,9 @@ def parse_header(h):
     if k < 0:
         raise ParseError(h)
     return body[:k], [], body[k + 2:], kind
+
+
+AMBIGUOUS = set()
 
 
 def parse_func(h, body):
